@@ -3,10 +3,11 @@
 // -fsanitize=thread.  Records what every thread observed; TLC validates every outcome against the
 // sequential specification (TraceYomm2.tla), the driver turns ThreadSanitizer reports into events.
 //
-// script: the dyn script subset  c / m / d / u  (policies 0..2: callers, 3: the concurrently updated one)
+// script: the dyn script subset  c / m / d / u  (policies 0..2: callers, 3..5: candidates for the concurrently updated one (MT line))
 //         MT <threads> <iterations> <seed>
 #include <yorel/yomm2/core.hpp>
 
+#include <algorithm>
 #include <atomic>
 #include <cstdio>
 #include <cstdlib>
@@ -48,9 +49,13 @@ struct p0 : basic_policy<p0, id_rtti, fast_perfect_hash<p0>, vptr_vector<p0>, th
 struct p1 : basic_policy<p1, id_rtti, checked_perfect_hash<p1>, vptr_vector<p1>, basic_indirect_vptr<p1>, throw_error> {};
 struct p2 : basic_policy<p2, id_rtti, vptr_map<p2>, throw_error> {};
 struct p3 : basic_policy<p3, id_rtti, fast_perfect_hash<p3>, vptr_vector<p3>, throw_error> {};
+// further choices for the concurrently updated policy: each facet implementation of a callers' policy also occurs in an updated one
+struct p4 : basic_policy<p4, id_rtti, vptr_map<p4>, throw_error> {};
+struct p5 : basic_policy<p5, id_rtti, checked_perfect_hash<p5>, vptr_vector<p5>, basic_indirect_vptr<p5>, throw_error> {};
 } // namespace pol
 
 constexpr int MAXD = 8;
+constexpr int NPOL = 6; // 0..2 callers, 3..5 candidates for the concurrently updated policy
 template<int K> struct Key {};
 
 struct Rec {
@@ -69,6 +74,9 @@ struct IReg {
     virtual bool update() = 0;
     virtual int run(int m, Obj* const* o, char route) = 0; // thread-safe
     virtual unsigned long checksum() = 0;
+    // address ranges [lo, hi) of the storage this policy's dispatch path and update use, by kind (ConcurrencyPaths.tla)
+    struct Range { const char* kind; std::uintptr_t lo, hi; };
+    virtual void footprint(std::vector<Range>& out) = 0;
 };
 
 template<class P>
@@ -180,6 +188,39 @@ struct Reg : IReg {
             return -97;
         }
     }
+    void footprint(std::vector<IReg::Range>& out) override {
+        auto obj = [&](const char* k, const void* a, std::size_t n) { if (n) out.push_back({k, (std::uintptr_t)a, (std::uintptr_t)a + n}); };
+        obj("cat", &P::classes, sizeof(P::classes));
+        obj("cat", &P::methods, sizeof(P::methods));
+        obj("disp", &P::dispatch_data, sizeof(P::dispatch_data));
+        obj("disp", P::dispatch_data.data(), P::dispatch_data.size() * sizeof(std::uintptr_t));
+        for (auto& s : slots) {
+            obj("cat", s.info, sizeof(*s.info));
+            if (s.m >= 0) obj("slots", s.info->slots_strides_ptr, (2 * s.vp.size() - 1) * sizeof(*s.info->slots_strides_ptr));
+        }
+        for (auto& ci : P::classes) obj("svp", ci.static_vptr, sizeof(*ci.static_vptr));
+        if constexpr (P::template has_facet<policy::type_hash>) {
+            obj("hashpar", &P::hash_mult, sizeof(P::hash_mult)); obj("hashpar", &P::hash_shift, sizeof(P::hash_shift));
+            obj("hashpar", &P::hash_length, sizeof(P::hash_length));
+            obj("hashpar", &P::hash_min, sizeof(P::hash_min)); obj("hashpar", &P::hash_max, sizeof(P::hash_max));
+        }
+        if constexpr (std::is_base_of_v<policy::checked_perfect_hash<P>, P>) {
+            obj("ctrl", &P::control, sizeof(P::control));
+            obj("ctrl", P::control.data(), P::control.size() * sizeof(type_id));
+        }
+        if constexpr (std::is_base_of_v<policy::vptr_vector<P>, P>) {
+            obj("vec", &P::vptrs, sizeof(P::vptrs));
+            obj("vec", P::vptrs.data(), P::vptrs.size() * sizeof(P::vptrs[0]));
+        }
+        if constexpr (std::is_base_of_v<policy::vptr_map<P>, P>) {
+            obj("vec", &P::vptrs, sizeof(P::vptrs));
+            for (auto& kv : P::vptrs) obj("vec", &kv, sizeof(kv));
+        }
+        if constexpr (std::is_base_of_v<policy::basic_indirect_vptr<P>, P>) {
+            obj("vec", &P::indirect_vptrs, sizeof(P::indirect_vptrs));
+            obj("vec", P::indirect_vptrs.data(), P::indirect_vptrs.size() * sizeof(P::indirect_vptrs[0]));
+        }
+    }
     unsigned long checksum() override {
         unsigned long h = 1469598103934665603ul;
         auto mix = [&](unsigned long v) { h = (h ^ v) * 1099511628211ul; };
@@ -202,16 +243,44 @@ static std::string jl(const std::vector<int>& v) {
     return s + "]";
 }
 
+// every policy's storage as address ranges.  Ranges of one policy that overlap or nest (a vector object and a member of it,
+// a method record and its inline slots) are coalesced, all ranges are sorted by their start and rank-encoded (TLC integers are
+// 32 bits wide; order and disjointness are invariant under a monotone map).  The storage of different policies is disjoint
+// iff every range of the sorted list ends before the next one starts: that is what the specification checks.
+static void emit_footprint(FILE* out, IReg* const* regs, const char* when) {
+    struct Cell { int p; std::string kind; std::uintptr_t lo, hi; };
+    std::vector<Cell> cells;
+    for (int p = 0; p < NPOL; ++p) {
+        std::vector<IReg::Range> fp;
+        regs[p]->footprint(fp);
+        std::sort(fp.begin(), fp.end(), [](auto& a, auto& b) { return a.lo < b.lo || (a.lo == b.lo && a.hi > b.hi); });
+        for (auto& r : fp) {
+            if (!cells.empty() && cells.back().p == p && r.lo < cells.back().hi) { cells.back().hi = std::max(cells.back().hi, r.hi); continue; }
+            cells.push_back({p, r.kind, r.lo, r.hi});
+        }
+    }
+    std::stable_sort(cells.begin(), cells.end(), [](auto& a, auto& b) { return a.lo < b.lo; });
+    std::set<std::uintptr_t> bounds;
+    for (auto& c : cells) { bounds.insert(c.lo); bounds.insert(c.hi); }
+    std::map<std::uintptr_t, int> rank; int n = 0; for (auto b : bounds) rank[b] = ++n;
+    std::fprintf(out, "{\"e\":\"footprint\",\"when\":\"%s\",\"cells\":[", when);
+    bool first = true;
+    for (auto& c : cells) {
+        std::fprintf(out, "%s{\"p\":%d,\"k\":\"%s\",\"lo\":%d,\"hi\":%d}", first ? "" : ",", c.p, c.kind.c_str(), rank[c.lo], rank[c.hi]);
+        first = false; }
+    std::fprintf(out, "]}\n");
+}
+
 int main(int argc, char** argv) {
     if (argc < 3) return 2;
     std::ifstream in(argv[1]);
     FILE* out = std::fopen(argv[2], "w");
     if (!in || !out) return 2;
-    IReg* regs[4] = {new Reg<pol::p0>, new Reg<pol::p1>, new Reg<pol::p2>, new Reg<pol::p3>};
+    IReg* regs[NPOL] = {new Reg<pol::p0>, new Reg<pol::p1>, new Reg<pol::p2>, new Reg<pol::p3>, new Reg<pol::p4>, new Reg<pol::p5>};
     struct CRec { int c; std::vector<int> bases; };
-    std::vector<CRec> crecs[4];
-    std::map<int, std::vector<int>> mvp[4];
-    std::map<int, std::string> mshape[4];
+    std::vector<CRec> crecs[NPOL];
+    std::map<int, std::vector<int>> mvp[NPOL];
+    std::map<int, std::string> mshape[NPOL];
     std::string line, id = "mt";
     int rcount = 0;
     int threads = 4, iters = 1000, seed = 1, updpol = 3; // updpol = 0: negative control (the updated policy is one the callers use)
@@ -254,6 +323,7 @@ int main(int argc, char** argv) {
         }
     }
     if (targets.empty()) { std::fprintf(out, "{\"e\":\"end\"}\n"); std::fclose(out); return 0; }
+    emit_footprint(out, regs, "before");
     std::fflush(out); // the set-up events survive whatever happens in the concurrent phase
     unsigned long before[3];
     for (int p = 0; p < 3; ++p) before[p] = regs[p]->checksum();
@@ -301,6 +371,7 @@ int main(int argc, char** argv) {
             if (seen.insert(ev).second) std::fprintf(out, "%s\n", ev.c_str()); // identical observations of one thread are printed once
         }
     }
+    emit_footprint(out, regs, "after");
     bool same = true;
     for (int p = 0; p < 3; ++p) same = same && before[p] == regs[p]->checksum();
     std::fprintf(out, "{\"e\":\"statics\",\"same\":%s,\"updates\":%ld,\"calls\":%ld}\n", same ? "true" : "false", updates.load(), (long)threads * iters);
